@@ -1696,3 +1696,91 @@ m("C08", "refactor-number", TL,
   "        return self.index + 1\n\n    @descriptorstr\n    def odd",
   "        return 1 + self.index\n\n    @descriptorstr\n    def odd",
   expect="silent")
+
+# ---- C06 -------------------------------------------------------------------
+m("C06", "comment-ignores-switch", ZP,
+  '''        if not self._interpolation[-1] or '${' not in node:
+            return nodes.Text(node)
+
+        char_escape = ('&', '<', '>') if self.escape else ()
+        expression = nodes.Substitution(node[4:-3], char_escape)''',
+  '''        if '${' not in node:
+            return nodes.Text(node)
+
+        char_escape = ('&', '<', '>') if self.escape else ()
+        expression = nodes.Substitution(node[4:-3], char_escape)''')
+m("C06", "question-comment-interpolated", ZP,
+  '''        if node.startswith('<!--?'):
+            return nodes.Text('<!--' + node.lstrip('<!-?'))
+''', '')
+m("C06", "switch-not-popped", ZP,
+  "        self._switches.pop()\n        self._interpolation.pop()\n",
+  "        self._switches.pop()\n")
+m("C06", "switch-not-inherited", ZP,
+  "            INTERPOLATION = self._interpolation[-1]",
+  "            INTERPOLATION = True")
+m("C06", "entities-not-decoded", C,
+  '''            translate=node.translation,
+            decode_htmlentities=True
+        )''',
+  '''            translate=node.translation,
+            decode_htmlentities=False
+        )''')
+m("C06", "decode-after-parse", C,
+  '''                if self.decode_htmlentities:
+                    string = decode_htmlentities(string)
+
+                if string:''',
+  '''                if string:''')
+m("C06", "shrink-from-front", C,
+  "                        matched = matched[m.start():m.end() - 1]",
+  "                        matched = matched[m.start() + 1:m.end()]")
+m("C06", "shrink-swallows-error", C,
+  '''                        m = self.regex.search(matched)
+                        if m is None:
+                            raise
+
+                        continue''',
+  '''                        m = self.regex.search(matched)
+                        if m is None:
+                            break
+
+                        continue''')
+m("C06", "advance-too-little", C,
+  "            text = text[len(m.group()):]\n",
+  "            text = text[len(string) + 3:]\n")
+m("C06", "undouble-before-odd-test", C,
+  '''                i = 0
+                length = len(part)
+                while i < length and part[-i - 1] == '$':
+                    i += 1
+                skip = i & 1
+                part = part.replace('$$', '$')''',
+  '''                part = part.replace('$$', '$')
+                i = 0
+                length = len(part)
+                while i < length and part[-i - 1] == '$':
+                    i += 1
+                skip = i & 1''')
+m("C06", "tail-not-undoubled", C,
+  '''            if m is None:
+                text = text.replace('$$', '$')
+                nodes.append(ast.Constant(text))
+                break''',
+  '''            if m is None:
+                nodes.append(ast.Constant(text))
+                break''')
+m("C06", "even-run-skips", C,
+  "                skip = i & 1\n", "                skip = not (i & 1)\n")
+m("C06", "text-keeps-double-dollar", ZP,
+  "        node = node.replace('$$', '$')\n\n        if not translation:",
+  "        if not translation:")
+m("C06", "lone-dollar-name-interpolated", ZP,
+  '''            expression = nodes.Substitution(node, char_escape)
+            return nodes.Interpolation(expression, True, translation)''',
+  '''            expression = nodes.Substitution(node, char_escape)
+            return nodes.Interpolation(expression, False, translation)''')
+m("C06", "refactor-switch-names", ZP,
+  "        self._switches.pop()\n        self._interpolation.pop()\n",
+  "        self._interpolation.pop()\n        self._switches.pop()\n",
+  expect="silent")
